@@ -10,7 +10,7 @@ OUTSIDE = ["sphere, ellipsoid, capsule, cylinder, cone, disk, ellipse and Margin
            "placements not on a sweep", "rounding"]
 BOUNDS = {"quick": "10 polytope pairs (box, tetrahedron, octahedron, cube mesh, triangle, segment, point; hull/Box/MeshGraph colliders) x 4 of 8 one-parameter sweeps each (translations through identical/coplanar/touching placements, rotations), <=128 support evaluations, <=1500 decisions per path",
           "thorough": "all 144 ordered corpus pairs x 8 sweeps"}
-WALL_BUDGET = {"quick": 420, "thorough": 900}
+WALL_BUDGET = {"quick": 300, "thorough": 600}
 EXPECTED_EXCEPTIONS = ()
 
 
